@@ -911,6 +911,12 @@ pub fn main(args: &[String]) {
             map_profile(&mut out, &mut rng, cases / 3 + 1, Disc::Fifo, true, true, false, &tys);
             map_profile(&mut out, &mut rng, cases / 3 + 1, Disc::Any, true, true, false, &tys);
         }
+        "merkle_hist" => {
+            for i in 0..cases {
+                crate::gen_merkle::hist(&mut out, &mut rng, i);
+            }
+        }
+        "merkle_small_all_orders" => crate::gen_merkle::small_all_orders(&mut out, &mut rng, cases),
         "lww_conflict" => {
             // deliberately reused markers: validate_op / validate_merge must flag equal marker + different value, only
             for _ in 0..cases {
